@@ -288,6 +288,19 @@ where
                         }
                     }
                 }
+                // message lists that do NOT match their index lists (fewer, more, absent), in either half
+                for (di, dci) in [(vec![0usize], vec![1usize]), (vec![0, 1], vec![0, 1]), (vec![], vec![0]), (vec![2], vec![])] {
+                    for (nm, kd, kc) in [("fewer_committed", di.len(), dci.len().saturating_sub(1)), ("no_committed", di.len(), 0), ("fewer_signer", di.len().saturating_sub(1), dci.len()), ("more_committed", di.len(), dci.len() + 1), ("more_signer", di.len() + 2, dci.len())] {
+                        let dm = rand_msgs(h, kd);
+                        let dcm = rand_msgs(h, kc);
+                        for (a, b2) in [(Some(&dm[..]), Some(&dcm[..])), (Some(&dm[..]), None), (None, Some(&dcm[..]))] {
+                            let o = blindproofverify::<CS>(h, &pk, &bp, None, None, Some(3), a, b2, Some(&di), Some(&dci));
+                            let id = h.last();
+                            h.stat(&format!("C08.bpv_shape.{}", nm));
+                            no_panic(h, "blind_proof_verify_shape", o.class(), id);
+                        }
+                    }
+                }
                 // the plain proof with the same shapes
                 for di in &dis {
                     let dm = rand_msgs(h, di.len());
